@@ -67,6 +67,16 @@ func (vc *VC) script(o *Obl, extra *Term, goal *Term, withModel bool) string {
 				seen[is.Sym] = true
 			}
 		}
+		// leading bytes of byte-slice inputs (for replay)
+		if _, ok := vc.declared[quoteSym("H0.Mem.u8")]; ok {
+			for _, is := range vc.inputSyms {
+				if is.Path == ".arr" && is.ByteSlice {
+					for k := 0; k < modelBytes; k++ {
+						sb.WriteString(byteTerm(vc.mode, is.Param, k) + " ")
+					}
+				}
+			}
+		}
 		sb.WriteString("))\n")
 	}
 	return sb.String()
@@ -174,6 +184,24 @@ func parseModel(txt string) map[string]string {
 		if strings.HasPrefix(body, "|") {
 			k := strings.Index(body[1:], "|") + 2
 			name, val = body[:k], strings.TrimSpace(body[k:])
+		} else if strings.HasPrefix(body, "(") {
+			// compound term key
+			d, k := 0, -1
+			for j := 0; j < len(body); j++ {
+				if body[j] == '(' {
+					d++
+				} else if body[j] == ')' {
+					d--
+					if d == 0 {
+						k = j + 1
+						break
+					}
+				}
+			}
+			if k < 0 {
+				continue
+			}
+			name, val = strings.Join(strings.Fields(body[:k]), " "), strings.TrimSpace(body[k:])
 		} else {
 			k := strings.IndexAny(body, " \n")
 			if k < 0 {
@@ -267,4 +295,15 @@ func (o *Obl) solve(dir string, timeoutSec int, seed int) *SolveResult {
 		res.Outputs = parts[0].outs
 	}
 	return res
+}
+
+const modelBytes = 40
+
+// byteTerm is the SMT term for byte k of a byte-slice parameter in the initial heap.
+func byteTerm(m Mode, param string, k int) string {
+	arr, off := quoteSym(param+".arr"), quoteSym(param+".off")
+	if m == ModeBV {
+		return fmt.Sprintf("(select (select H0.Mem.u8 %s) (bvadd %s (_ bv%d 64)))", arr, off, k)
+	}
+	return fmt.Sprintf("(select (select H0.Mem.u8 %s) (+ %s %d))", arr, off, k)
 }
